@@ -45,6 +45,7 @@ type Solver struct {
 	log       io.Writer
 	nq        int
 	z3        bool
+	nlFirst   bool // ask the nlsat tactic before the plain check (set per path by vNLFirst)
 }
 
 func NewSolver(tt *TermTable, bin string, timeoutMs int) (*Solver, error) {
@@ -189,31 +190,47 @@ func (s *Solver) Check(asserts []*Term, wantModel bool) (Result, map[string]stri
 		fmt.Fprintf(&sb, "(assert %s)\n", s.pr.ref(a))
 	}
 	// Non-linear real arithmetic: z3's incremental core (what a plain check-sat uses after push)
-	// gives up on polynomial queries that its nlsat tactic decides in milliseconds; ask the
-	// tactic first and fall back to the plain check when it cannot handle the goal.
-	nl := s.tt.nlReal && s.z3 && os.Getenv("VERIF_NLSAT") != "0"
-	if nl {
-		fmt.Fprintf(&sb, "(check-sat-using (try-for (then simplify qfnra-nlsat) %d))\n(echo \"@nl\")\n", s.timeoutMs)
-	} else {
-		sb.WriteString("(check-sat)\n")
-	}
-	s.send(sb.String())
-	ans, err := s.readAnswerTimed()
-	if nl && err == nil {
+	// gives up on polynomial queries that its nlsat tactic decides in milliseconds.  A harness
+	// whose queries are of that kind asks for the tactic first (vNLFirst); everywhere else the
+	// tactic is tried only after the plain check answered unknown.  Where the tactic cannot
+	// handle the goal (other theories) it answers unknown and the other answer stands.
+	canNL := s.tt.nlReal && s.z3 && os.Getenv("VERIF_NLSAT") != "0"
+	tacticCmd := fmt.Sprintf("(check-sat-using (try-for (then simplify qfnra-nlsat) %d))\n(echo \"@nl\")\n", s.timeoutMs)
+	readTactic := func() (string, error) {
 		// everything up to the echo marker belongs to the tactic's answer
 		tactic := ""
-		for err == nil && strings.Trim(strings.TrimSpace(ans), "\"") != "@nl" {
-			tactic += " " + strings.TrimSpace(ans)
-			ans, err = s.readAnswerTimed()
+		a, e := s.readAnswerTimed()
+		for e == nil && strings.Trim(strings.TrimSpace(a), "\"") != "@nl" {
+			tactic += " " + strings.TrimSpace(a)
+			a, e = s.readAnswerTimed()
 		}
-		tactic = strings.TrimSpace(tactic)
+		return strings.TrimSpace(tactic), e
+	}
+	var ans string
+	var err error
+	if canNL && s.nlFirst {
+		sb.WriteString(tacticCmd)
+		s.send(sb.String())
+		ans, err = readTactic()
 		if err == nil {
-			if tactic == "sat" || tactic == "unsat" {
+			if ans == "sat" || ans == "unsat" {
 				s.Stats.NLSat++
-				ans = tactic
 			} else {
 				s.send("(check-sat)\n")
 				ans, err = s.readAnswerTimed()
+			}
+		}
+	} else {
+		sb.WriteString("(check-sat)\n")
+		s.send(sb.String())
+		ans, err = s.readAnswerTimed()
+		if canNL && err == nil && strings.TrimSpace(ans) == "unknown" {
+			s.send(tacticCmd)
+			t, e := readTactic()
+			err = e
+			if e == nil && (t == "sat" || t == "unsat") {
+				s.Stats.NLSat++
+				ans = t
 			}
 		}
 	}
